@@ -259,7 +259,13 @@ pub enum BOp {
     Downcast { i: usize, matching: bool, send: bool },
     ArrayToSlice(usize),
     SliceToArray { i: usize, matching: bool },
-    VecToBox { n: usize, tag0: u32 },
+    VecToBox {
+        n: usize,
+        tag0: u32,
+        /// spare capacity of the vector before the conversion (0 = whatever from_iter_in leaves)
+        #[serde(default)]
+        spare: usize,
+    },
     FromIter { n: usize, tag0: u32, collect: bool },
     IterBox { n: usize, front: u8, back: u8 },
     Fmt(usize),
